@@ -171,6 +171,8 @@ PROPS["C03"] = {
     "harnesses": [
         {"pkg": "app", "name": "VerifC03_Daemon", "quick": {"d": 0}, "thorough": {"d": 1}, "native": False,
          "bounds": {"N": 2, "scenario": "launched daemon with a shutdown command that succeeds / fails / runs into its timeout, plus an ordinary process; project shutdown"}},
+        {"pkg": "app", "name": "VerifC03_AfterScale", "quick": {"d": 1}, "thorough": {"d": 2}, "native": False,
+         "bounds": {"initial replicas": "{1,2}", "scale to": "{1,2,3,10}", "shutdown": "default or ordered, after the scale request has settled"}},
         {"pkg": "app", "name": "VerifC03_AlreadyStopping", "quick": {"d": 1}, "thorough": {"d": 2}, "replay_repeat": 6,
          "bounds": {"N": 2, "scenario": "StopProcess on a slow-dying process, then ShutDownProject (ordered or not) while it is still Terminating"}},
         {"pkg": "app", "name": "VerifC03_Project", "quick": {"d": 1}, "thorough": {"d": 2}, "replay_repeat": 8, "reach": ["end", "run.returned", "shutdown.returned"],
@@ -299,7 +301,7 @@ _lv("C16", "The post-merge loader pipeline (setDefaultShell, assignDefaultProces
 _lv("C02", 'Decision kernel isRestartable/getBackoff for every policy string, exit code, restart count, max_restarts>=0, stop flag (solver-decided, full ranges). Real restart loop of one process (4 scripted exits with run time 0/3 s, policy x max x backoff, one stop request at any labelled instant, delay bound d, virtual time): every relaunch justified by policy and exit code, within max_restarts, not before the back-off, never after a completed stop; restart count = relaunches. Project shutdown kept busy by a slow process: no relaunch of a restart-always worker that exits meanwhile.',
     'Stub Commander through the verif seam; virtual clock; preemption at labelled yields/blocking ops; max_restarts>=0; seconds within 2^31.')
 
-_lv("C03", 'Real runner on 2-process projects: ShutDownProject() arrives at every labelled life-cycle point of either process (explicit choice) with delay bound d, and while a slow-dying process is already being stopped: at return nothing launched is alive and nothing is reported running; afterwards nothing is launched and Run() returns. Daemon: a launched daemon whose shutdown command succeeds / fails / times out is reported stopped and Run() returns.',
+_lv("C03", 'Real runner on 2-process projects: ShutDownProject() arrives at every labelled life-cycle point of either process (explicit choice) with delay bound d, and while a slow-dying process is already being stopped: at return nothing launched is alive and nothing is reported running; afterwards nothing is launched and Run() returns. Daemon: a launched daemon whose shutdown command succeeds / fails / times out is reported stopped and Run() returns. AfterScale: replicas renamed or added by a scale request are ended by a default or ordered project shutdown like any other process.',
     'Stub Commander; N=2; preemption at labelled yields/blocking ops only; OS signals to the binary outside. Known finding: shutdown while Run() still registers processes.')
 
 _lv("C06", 'Decision kernel (*CmdWrapper).Stop/SetCmdArgs for every signal value, parent_only, pid/pgid, Getpgid failure. Escalation: real stopProcess/forceKillOnTimeout/doConfiguredStop/onProcessEnd on one process with virtual time for signal x timeout x parent_only x shutdown command (none/ok/fails/times out) x child ignores SIGTERM or not: configured signal first, SIGKILL only after the timeout with the child still alive or after a failed command, never otherwise; the command gets environment and working directory. ProjectTimeout: under a project shutdown the timeout of each process runs from its own signal, whatever the death latency of the others.',
